@@ -322,6 +322,8 @@ where
 
         let mut data = &mut self.data;
         let mut pos = 0;
+        // Slot of the current last item and the offset it has to be sealed with.
+        let mut last_slot = None::<(&mut [u8], L)>;
 
         loop {
             let offset = *L::from_bytes(data)?;
@@ -332,13 +334,13 @@ where
                 let payload_size = ceil_mul(T::from_bytes(payload)?.size(), Self::ALIGN);
                 let last_offset = offset_size + payload_size;
                 pos += last_offset;
-                L::from_usize(last_offset)
+                let sealed = L::from_usize(last_offset)
                     .and_then(|o| if o < L::max_value() { Some(o) } else { None })
                     .ok_or(Error {
                         kind: ErrorKind::InsufficientSize,
                         pos,
-                    })?
-                    .emplace(offset_slot)?;
+                    })?;
+                last_slot = Some((offset_slot, sealed));
                 (_, data) = payload.split_at_mut(payload_size);
                 break;
             }
@@ -355,8 +357,13 @@ where
         }
 
         let (offset_slot, payload) = data.split_at_mut(offset_size);
+        // Nothing that belongs to the existing items is modified until the new item is in place.
+        let item = emplacer.emplace(payload).map_err(|e| e.offset(pos + offset_size))?;
         L::max_value().emplace(offset_slot)?;
-        emplacer.emplace(payload)
+        if let Some((last_offset_slot, sealed)) = last_slot {
+            sealed.emplace(last_offset_slot)?;
+        }
+        Ok(item)
     }
     pub fn push_default(&mut self) -> Result<&mut T, Error>
     where
